@@ -103,6 +103,23 @@ def _work(args):
                     w = [e["name"], [sl, e["start"][1]], [el, e["end"][1]], e["length"]]
                     if g != w:
                         probs.append(f"{e['name']}: {g[1:]} but unmarked result is {w[1:]}")
+        # the scanner's own route (file on disk -> _analyze_file) must give what lexing and scanning the text gives
+        if sd % 3 == 0 and got[0] == 0:
+            import os
+            import tempfile
+            from codelimit.common.Scanner import _analyze_file
+            fd, path = tempfile.mkstemp(suffix="." + LC.EXT[lang], prefix="verif_c17_")
+            try:
+                with os.fdopen(fd, "w", encoding="utf8", newline="") as f:
+                    f.write(text)
+                entry = _analyze_file(path, "x." + LC.EXT[lang], "c", LC.lexer_for(lang))
+                via_file = [[m.unit_name, [m.start.line, m.start.column], [m.end.line, m.end.column], m.value] for m in entry.measurements()]
+                if via_file != got[1]:
+                    probs.append(f"analysed as a file the program reports {[m[0] for m in via_file]}, as text {[g[0] for g in got[1]]} (marked: {marked})")
+            except Exception as ex:
+                probs.append(f"analysing the program as a file raised {type(ex).__name__}: {ex}")
+            finally:
+                os.remove(path)
         toklit = LC.tokens_lit(LC.impl_lex(lang, text)) if len(text) < 2500 else None
         out.append((sd, kind, marked, got, probs, toklit, text if probs else None, len(exp)))
     return lang, out
